@@ -498,6 +498,60 @@ fn sweep_one<A: Ar>(reserved: u32, unify: bool, backend: Backend, cap: u32, viol
 }
 
 /// All combinations for one reserved value.
+/// Reserved sizes at the edges of the u32 range with small capacities: the prefix cannot fit, construction has to
+/// fail with an error - no panic, no wrap-around of the prefix computation (an out-of-bounds write kills the worker).
+pub const SWEEP_BOUNDARY: [u32; 24] = [
+    u32::MAX, u32::MAX - 1, u32::MAX - 2, u32::MAX - 3, u32::MAX - 4, u32::MAX - 7, u32::MAX - 8, u32::MAX - 9, u32::MAX - 15, u32::MAX - 16, u32::MAX - 23,
+    u32::MAX - 24, u32::MAX - 31, u32::MAX - 32, u32::MAX - 33, u32::MAX - 40, (1 << 31) - 1, 1 << 31, (1 << 31) + 1, u32::MAX - 4095, u32::MAX - 4096, 1 << 20, 65535, 65536,
+];
+
+pub fn sweep_boundary(idx: usize, tag: u64) -> (Vec<Violation>, u64) {
+    let reserved = SWEEP_BOUNDARY[idx % SWEEP_BOUNDARY.len()];
+    let mut viols: Vec<Violation> = Vec::new();
+    let mut n = 0u64;
+    hook::set_mode(Mode::Off);
+    for unify in [false, true] {
+        for backend in [Backend::Vec, Backend::Anon, Backend::File] {
+            for cap in [1u32, 64, 1024, 4096, 70000] {
+                for sync in [true, false] {
+                    n += 1;
+                    let cfg = Cfg { sync, backend, unify, freelist: 1, cap, reserved, min_seg: 8, max_align: 8, retries: 3, magic: 0, offset: 0 };
+                    // reference prefix in 64-bit arithmetic
+                    let eff_unify = unify || backend == Backend::File;
+                    let need: u64 = if eff_unify { ((reserved as u64 + 7) & !7) + 8 + 24 } else { reserved as u64 + 1 };
+                    let path = if backend == Backend::File { Some(path_for(tag, 10)) } else { None };
+                    let r = std::panic::catch_unwind(std::panic::AssertUnwindSafe(|| {
+                        if sync {
+                            build::<sync::Arena>(&cfg, path.as_deref()).map(|a| a.data_offset())
+                        } else {
+                            build::<unsync::Arena>(&cfg, path.as_deref()).map(|a| a.data_offset())
+                        }
+                    }));
+                    let what = format!("{} backend={:?} unify={} reserved={} capacity={}", if sync { "sync" } else { "unsync" }, backend, unify, reserved, cap);
+                    match r {
+                        Err(p) => {
+                            let (_, d) = crate::exec::panic_message(&p);
+                            if viols.iter().all(|v| v.class != "construction_panicked") {
+                                viols.push(Violation { prop: "C16", class: "construction_panicked", detail: format!("{}: construction panicked ({}) instead of failing with InsufficientSpace / InvalidInput", what, d), op: 0 });
+                            }
+                        }
+                        Ok(Ok(off)) if (cap as u64) < need => {
+                            if viols.iter().all(|v| v.class != "construction") {
+                                viols.push(Violation { prop: "C16", class: "construction", detail: format!("{}: construction succeeded (data_offset {}) although the prefix needs {} bytes", what, off, need), op: 0 });
+                            }
+                        }
+                        _ => {}
+                    }
+                    if let Some(p) = path {
+                        let _ = std::fs::remove_file(p);
+                    }
+                }
+            }
+        }
+    }
+    (viols, n)
+}
+
 pub fn sweep(reserved: u32, tag: u64) -> (Vec<Violation>, u64) {
     let mut viols = Vec::new();
     let mut n = 0u64;
